@@ -45,16 +45,22 @@ def run_one(m, props, with_pytest):
     scratch = tempfile.mkdtemp(prefix="speckit-mut-%s-" % m["id"], dir="/tmp")
     out = {"id": m["id"], "file": m["file"], "note": m.get("note", ""), "results": {}}
     try:
-        shutil.copytree("/repo/speckit", os.path.join(scratch, "speckit"),
-                        ignore=shutil.ignore_patterns("__pycache__"))
-        apply(scratch, m)
+        # base = the committed tree (git archive HEAD), so that a concurrently patched working tree cannot leak in
+        ar = subprocess.run("git -C /repo archive HEAD speckit tests | tar -x -C %s" % scratch, shell=True, capture_output=True, text=True)
+        if ar.returncode != 0:
+            out["error"] = "git archive failed: " + ar.stderr[-200:]
+            return out
+        try:
+            apply(scratch, m)
+        except RuntimeError as exc:
+            out["error"] = str(exc)
+            return out
         chk = subprocess.run([sys.executable, "-c", "import ast,sys;ast.parse(open(sys.argv[1]).read())",
                               os.path.join(scratch, m["file"])], capture_output=True, text=True)
         if chk.returncode != 0:
             out["error"] = "mutant does not parse"
             return out
         if with_pytest and m.get("pytest"):
-            shutil.copytree("/repo/tests", os.path.join(scratch, "tests"))
             env = dict(os.environ, PYTHONPATH=scratch)
             r = subprocess.run(["/venv/bin/python", "-m", "pytest", "-q", "-x", "-p", "no:cacheprovider"] + m["pytest"],
                                cwd=scratch, env=env, capture_output=True, text=True)
